@@ -236,19 +236,21 @@ def build_response(scn, rec, cfg=None):
                                      "n_missing": 0}
     flaty = rec.get("flaty")
     if flaty:
+        ym = rec["hdr"]["ymissing"]
         for name in scn.get("ymeasures", ()):
-            measures[name] = _measure(flaty[name], scn, numeric=True)
+            measures[name] = _measure(flaty[name], scn, numeric=True, n_missing=ym)
         if scn.get("valid_counts"):
-            measures["valid_count_unweighted"] = _measure(flaty["vcu"], scn, numeric=True)
+            measures["valid_count_unweighted"] = _measure(flaty["vcu"], scn, numeric=True, n_missing=ym)
             if scn.get("weighted"):
-                measures["valid_count_weighted"] = _measure(flaty["vcw"], scn, numeric=True)
+                measures["valid_count_weighted"] = _measure(flaty["vcw"], scn, numeric=True,
+                                                            n_missing=ym)
     result = {
         "element": "crunch:cube",
         "dimensions": dimension_dicts(scn, cfg),
         "counts": list(flat["counts"]),
         "measures": measures,
-        "n": sum(flat["counts"]) if flat["counts"] else 0,
-        "missing": 0,
+        "n": rec["hdr"]["n"],
+        "missing": rec["hdr"]["missing"],
     }
     f = scn.get("filter")
     if f:
